@@ -110,6 +110,8 @@ fn gen_cfg(rng: &mut Rng) -> Cfg {
         corpus.push_str("EOS\n");
     }
     let mut user = String::new();
+    // a 0,0,0 user word with exactly the features of a seed word (must behave like that word)
+    { let (_, f) = rng.pick(&rows); user.push_str(&format!("uz,0,0,0,{}\n", f)); }
     for i in 0..1 + rng.below(3) {
         let s = format!("u{}", ["x", "y", "猫猫"][i as usize % 3]);
         if rng.chance(1, 2) { user.push_str(&format!("{},0,0,0,{}\n", s, feats(rng))); } else { user.push_str(&format!("{},1,1,{},{}\n", s, rng.range(-50, 50), feats(rng))); }
@@ -246,17 +248,60 @@ pub fn run(prop: &str, seed: u64, n: usize, outdir: &str, _corpus: Option<&str>)
                 }
             }
         }
+        // ---- C14 on the files generated by the RELOADED model (the train -> dictgen path)
+        {
+            let lo = String::from_utf8_lossy(&g3.lex).to_string();
+            let orows: Vec<_> = lo.lines().map(|l| split_row(l)).collect();
+            let ok = seed_rows.len() == orows.len() && seed_rows.iter().zip(&orows).all(|(a, b)| match (a, b) { (Some(a), Some(b)) => a.0 == b.0 && a.4 == b.4, _ => false });
+            flags.push(("c14_reload_rows_preserved".into(), ok as u8));
+            let (lx, mx, ux, us, cd) = (g3.lex.clone(), g3.matrix.clone(), g3.unk.clone(), g3.user.clone(), c.chardef.clone());
+            let d3 = guarded(move || {
+                let d = vibrato::SystemDictionaryBuilder::from_readers(&lx[..], &mx[..], cd.as_bytes(), &ux[..])?;
+                d.reset_user_lexicon_from_reader(Some(&us[..]))
+            });
+            flags.push(("c14_reload_compiles".into(), matches!(d3, Outcome::Ok(_)) as u8));
+            // a 0,0,0 user word with the features of a seed word gets that word's cost and connection behaviour
+            if let Outcome::Ok(d3) = &d3 {
+                let conn = conn_of(d3);
+                let uo = String::from_utf8_lossy(&g3.user).to_string();
+                let mut like = true;
+                for (ul, uo_l) in c.user.lines().zip(uo.lines()) {
+                    if let (Some(u), Some(o)) = (split_row(ul), split_row(uo_l)) {
+                        if (u.1, u.2, u.3) != (0, 0, 0) { continue; }
+                        for (sl, so_l) in c.lex.lines().zip(lo.lines()) {
+                            if let (Some(sd), Some(so)) = (split_row(sl), split_row(so_l)) {
+                                if sd.4 == u.4 {
+                                    let col = |m: &Vec<Vec<i32>>, l: i64| -> Vec<i32> { m.iter().map(|r| r[l as usize]).collect() };
+                                    // (the word cost may differ: the unigram template %t sees the category of the surface's first character)
+                                    like &= conn[o.2 as usize] == conn[so.2 as usize] && col(&conn, o.1) == col(&conn, so.1);
+                                }
+                            }
+                        }
+                    }
+                }
+                flags.push(("c14_reload_user_like_seed".into(), like as u8));
+            }
+        }
         // ---- C18 data for the Coq oracle
-        let words: Vec<String> = c.lex.lines().zip(lex_out.lines()).chain(c.unk.lines().map(|_| ("", "")).take(0)).filter_map(|(s, o)| {
-            let (a, b) = (split_row(s)?, split_row(o)?);
-            Some(format!("({}, {}, {})", clist(&csv_cells(&a.4), |x| cstr(x)), b.1, b.2))
-        }).collect();
         let rows_of = |b: &[u8]| -> String { clist(&String::from_utf8_lossy(b).lines().map(|l| csv_cells(l.split_once('\t').map_or("", |x| x.1))).collect::<Vec<_>>(), |r| clist(r, |x| cstr(x))) };
+        // a view = the words (lexicon rows, unk.def rows in emitted order, 0,0,0 user rows) with their
+        // emitted ids, and the listed tuples; one view for the in-memory model, one for the reloaded model
+        let view = |f: &Files| -> String {
+            let lo = String::from_utf8_lossy(&f.lex).to_string();
+            let uno = String::from_utf8_lossy(&f.unk).to_string();
+            let uso = String::from_utf8_lossy(&f.user).to_string();
+            let mut words: Vec<String> = vec![];
+            let mut push = |feat: &str, l: i64, r: i64, kind: u8| words.push(format!("({}, {}, {}, {})", clist(&csv_cells(feat), |x| cstr(x)), l, r, kind));
+            for (s, o) in c.lex.lines().zip(lo.lines()) { if let (Some(a), Some(b)) = (split_row(s), split_row(o)) { push(&a.4, b.1, b.2, 0); } }
+            for o in uno.lines() { if let Some(b) = split_row(o) { push(&b.4, b.1, b.2, 1); } }
+            for (s, o) in c.user.lines().zip(uso.lines()) { if let (Some(a), Some(b)) = (split_row(s), split_row(o)) { if (a.1, a.2, a.3) == (0, 0, 0) { push(&a.4, b.1, b.2, 2); } } }
+            format!("({}, {}, {})", clist(&words, |w| w.clone()), rows_of(&f.left), rows_of(&f.right))
+        };
         let term = format!(
-            "(Build_trncase {} {} {} {} {} {} {})",
+            "(Build_trncase {} {} {} {} {})",
             sub, clist(&flags, |(k, v)| format!("({}, {})", cstr(k), v)),
             clist(&c.bigrams, |(l, r)| format!("({}, {})", cstr(l), cstr(r))), cstr(&c.rewrite_def),
-            clist(&words, |w| w.clone()), rows_of(&f1.left), rows_of(&f1.right)
+            clist(&[view(&f1), view(&g3)], |v| v.clone())
         );
         if sh.push_h(format!("seed:{}", sub), term, human.clone()) && samples.len() < 2 { samples.push(format!("{{\"case\":{}}}", json_str(&human))); }
     }
